@@ -198,6 +198,14 @@ def r2_first_wins(ctx: Ctx, eng: Decider, leg: Decider) -> None:
                 matched = d.matched_guard(s)
                 unset = (f'{primary} is None', True) in g
                 has_cat = any(truth and text in [h.format(r=r) for h in HAS_CATEGORY_TEXTS] for text, truth in g)
+                if not has_cat:
+                    # the rule's fields may be read through a record built from the rule (a namedtuple / dataclass view of the tuple)
+                    import re as _re
+                    for text, truth in g:
+                        m_ = _re.fullmatch(r'(?:bool\()?(\w+)\.(category|is_categorization_rule)\)?', text)
+                        if truth and m_ and any(f'name:{r}' in d.fl.atoms(getattr(d.cfg.stmt[dn], 'value', None), d.cfg.stmt[dn]) or f'loopvar:{r}' in d.fl.atoms(getattr(d.cfg.stmt[dn], 'value', None), d.cfg.stmt[dn])
+                                                for dn in d.cfg.defs_reaching(s, m_.group(1)) if dn != 'param' and getattr(d.cfg.stmt[dn], 'value', None) is not None):
+                            has_cat = True
                 from_rule = True
                 if nm == primary:
                     a = d.fl.atoms(s.value, s)
